@@ -52,27 +52,48 @@ Proof. intros va. exists (rs_of va). apply resync_payload_rs. Qed.
 Definition va1 : cmap := [pvl "/a/b" "1" 1; pvl "/a/c" "2" 1; pvl "/x" "9" 2].
 Definition d1 : dstate := [(B "/x", B "9"); (B "/a/c", B "2"); (B "/a/b", B "1")].
 Ltac sound_tac := unfold apply_sound_at; intros _ _; vm_compute; reflexivity.
+(* the Go map iteration orders of the recording: ord codes the order of the change values and, divided by the factorial
+   of their number, the order of the updated values; 0..5 covers every pair of orders of the examples below (at most
+   two change values and two updated values, or one change value and three updated values) *)
+Definition ords6 : list N := [0; 1; 2; 3; 4; 5].
+Ltac all_ords_tac := repeat (apply List.Forall_cons; [sound_tac|]); apply List.Forall_nil.
 
 (* a delete of the container /a: cascades to both leaves *)
 Example apply_sound_delete : exists r, payload 3 va1 [pvd "/a" 3] = Some r /\ abs_dev_i d1 = abs_app_i (overlay [] va1) /\
-  wf_applied va1 = true /\ wf_change [pvd "/a" 3] = true /\ i_apply_sound_at 3 [] va1 va1 [pvd "/a" 3] r d1.
-Proof. eexists. split; [vm_compute; reflexivity|]. repeat split; try (vm_compute; reflexivity). Qed.
+  wf_applied va1 = true /\ wf_change [pvd "/a" 3] = true /\
+  Forall (fun ord => i_apply_sound_at ord 3 [] va1 va1 [pvd "/a" 3] r d1) ords6.
+Proof. eexists. split; [vm_compute; reflexivity|]. repeat split; try (vm_compute; reflexivity). all_ords_tac. Qed.
 (* an update of a value and a new leaf, the applied values partly inlined in the entry *)
 Example apply_sound_update : exists r, payload 3 va1 [pvl "/a/b" "7" 3; pvl "/y" "0" 3] = Some r /\
-  i_apply_sound_at 3 [pvl "/a/b" "1" 1] va1 va1 [pvl "/a/b" "7" 3; pvl "/y" "0" 3] r d1.
-Proof. eexists. split; [vm_compute; reflexivity|sound_tac]. Qed.
+  Forall (fun ord => i_apply_sound_at ord 3 [pvl "/a/b" "1" 1] va1 va1 [pvl "/a/b" "7" 3; pvl "/y" "0" 3] r d1) ords6.
+Proof. eexists. split; [vm_compute; reflexivity|all_ords_tac]. Qed.
 (* a value re-created beneath an applied tombstone (the committed view is ahead: it no longer holds the tombstone) *)
 Example apply_sound_recreate : exists r, payload 4 [pvl "/a/c" "3" 4] [pvl "/a/c" "3" 4] = Some r /\
-  i_apply_sound_at 4 [] [pvd "/a" 2; pvl "/x" "9" 1] [pvl "/a/c" "3" 4] [pvl "/a/c" "3" 4] r [(B "/x", B "9")].
-Proof. eexists. split; [vm_compute; reflexivity|sound_tac]. Qed.
-(* a delete applied while the committed view is ahead and no longer holds the children the applied values hold *)
-Example apply_sound_lagging_delete : exists r, payload 2 [pvl "/a/c" "3" 3] [pvd "/a" 2] = Some r /\
-  i_apply_sound_at 2 [] [pvl "/a/b" "1" 1] [pvl "/a/c" "3" 3] [pvd "/a" 2] r [(B "/a/b", B "1")].
-Proof. eexists. split; [vm_compute; reflexivity|sound_tac]. Qed.
+  Forall (fun ord => i_apply_sound_at ord 4 [] [pvd "/a" 2; pvl "/x" "9" 1] [pvl "/a/c" "3" 4] [pvl "/a/c" "3" 4] r [(B "/x", B "9")]) ords6.
+Proof. eexists. split; [vm_compute; reflexivity|all_ords_tac]. Qed.
+(* a delete applied while the committed view is ahead: it no longer holds the child /a/b the applied values hold, and
+   holds a child /a/c (of a later change) they do not.  AddDeleteChildren cascades to /a/c only; recording the tombstone
+   of /a/c AFTER the tombstone of /a removes the latter (applyChangeToConfig drops deleted ancestors of every value it
+   sets, tombstones included), so /a/b stays live in the applied values although the device deleted it.
+   Holds in the order 0 of the updated values, FAILS in the order 1 (Go map order of the loop in reconcileApply). *)
+Example apply_sound_lagging_delete_refuted : exists r, payload 2 [pvl "/a/c" "3" 3] [pvd "/a" 2] = Some r /\
+  wf_change [pvd "/a" 2] = true /\ wf_applied [pvl "/a/b" "1" 1] = true /\ wf_applied [pvl "/a/c" "3" 3] = true /\
+  i_apply_sound_at 0 2 [] [pvl "/a/b" "1" 1] [pvl "/a/c" "3" 3] [pvd "/a" 2] r [(B "/a/b", B "1")] /\
+  abs_dev_i (dev_apply [(B "/a/b", B "1")] r) = [] /\
+  abs_app_i (loaded overlay nil (record_applied 1 2 [pvl "/a/b" "1" 1] (overlay [] [pvl "/a/b" "1" 1]) [pvl "/a/c" "3" 3] [pvd "/a" 2]))
+    = [(B "/a/b", B "1")] /\
+  ~ i_apply_sound_at 1 2 [] [pvl "/a/b" "1" 1] [pvl "/a/c" "3" 3] [pvd "/a" 2] r [(B "/a/b", B "1")].
+Proof.
+  eexists. split; [vm_compute; reflexivity|]. repeat split; try (vm_compute; reflexivity). intros H.
+  assert (Hx : abs_dev_i (dev_apply [(B "/a/b", B "1")] (mkReq [B "/a"] [])) =
+               abs_app_i (loaded overlay nil (record_applied 1 2 [pvl "/a/b" "1" 1] (overlay [] [pvl "/a/b" "1" 1]) [pvl "/a/c" "3" 3] [pvd "/a" 2])))
+    by (apply H; vm_compute; reflexivity).
+  vm_compute in Hx. discriminate Hx.
+Qed.
 
-(* FAILS outside wf_change: one change deleting /a and setting /a/b (Go map order: the delete first).  The request is
-   "delete /a" only (the update is pruned as lying beneath the delete, in either order), the recorded applied values
-   say /a/b = 1: the device does not hold what the applied (and the committed) configuration says.  Device-side
+(* FAILS outside wf_change: one change deleting /a and setting /a/b.  The request is "delete /a" only (the update is
+   pruned as lying beneath the delete, in either order); in half of the Go map orders of the recording (0 and 3 of
+   0..3) the recorded applied values say /a/b = 1: the device does not hold what the applied configuration says.  Device-side
    facet of the open finding F-14-C03 (c03_delete_update_overlap). *)
 Definition ch_overlap : cmap := [pvd "/a" 2; pvl "/a/b" "1" 2].
 Example apply_sound_overlap_refuted :
@@ -80,12 +101,13 @@ Example apply_sound_overlap_refuted :
   payload 2 [] ch_overlap = Some (mkReq [B "/a"] []) /\ payload 2 [] (rev ch_overlap) = Some (mkReq [B "/a"] []) /\
   abs_dev_i [] = abs_app_i (overlay [] []) /\
   abs_dev_i (dev_apply [] (mkReq [B "/a"] [])) = [] /\
-  abs_app_i (loaded overlay nil (record_applied 2 [] (overlay [] []) [] ch_overlap)) = [(B "/a/b", B "1")] /\
-  ~ i_apply_sound_at 2 [] [] [] ch_overlap (mkReq [B "/a"] []) [].
+  map (fun ord => abs_app_i (loaded overlay nil (record_applied ord 2 [] (overlay [] []) [] ch_overlap))) [0; 1; 2; 3] =
+    [[(B "/a/b", B "1")]; []; []; [(B "/a/b", B "1")]] /\
+  ~ i_apply_sound_at 0 2 [] [] [] ch_overlap (mkReq [B "/a"] []) [].
 Proof.
   repeat split; try (vm_compute; reflexivity). intros H.
   assert (Hx : abs_dev_i (dev_apply [] (mkReq [B "/a"] [])) =
-               abs_app_i (loaded overlay nil (record_applied 2 [] (overlay [] []) [] ch_overlap)))
+               abs_app_i (loaded overlay nil (record_applied 0 2 [] (overlay [] []) [] ch_overlap)))
     by (apply H; vm_compute; reflexivity).
   vm_compute in Hx. discriminate Hx.
 Qed.
@@ -152,6 +174,7 @@ Notation i_ok_reqs := (@ok_reqs cmap cmap req).
 Definition l0 : list Label :=
   [LTarget 1 false; LConnUp 10 1; LChange [(1, x_ch "/a/b" "1")] true false; LChange [(1, x_ch "/c" "2")] true false;
    LChange [(1, x_del "/c")] true false].
+Definition x_oracle1 (a : code) : oracle := mkOracle true true a 0 1.
 (* the device does not answer: change 1 stays APPLYING, every guard of the apply is passed *)
 Definition w_send : Wd := x_run (l0 ++ x_rounds 30 (x_oracle CUnavailable) 10 1 [1; 2; 3]).
 (* everything applied *)
@@ -188,7 +211,7 @@ Qed.
 Example ex_apply_hyps : exists term r,
   i_sent_by_apply w_send (x_oracle COk) 1 1 10 term r COk /\ i_agrees w_send 1 /\
   (forall (C : Cfg) (P : Prop2), cfgs w_send !! 1 = Some C -> props w_send !! (1, 1) = Some P ->
-     i_apply_sound_at 1 (c_ainline C) (c_avalues C) (view overlay C) (rb_change nil P) r (i_dstate_of w_send 1)) /\
+     i_apply_sound_at (o_order (x_oracle COk)) 1 (c_ainline C) (c_avalues C) (view overlay C) (rb_change nil P) r (i_dstate_of w_send 1)) /\
   i_apply_idem_at (i_dstate_of w_send 1) r /\
   dev_answer (nil : dstate) (p2_step w_send (LRec (CtlProp (1, 1)) 1 (x_oracle COk))) 1 term (x_oracle COk) = COk.
 Proof.
@@ -259,4 +282,45 @@ Proof.
     - intros C HC. cfg_tac HC. split; [repeat split; vm_compute; reflexivity|].
       intros _. eexists. split; [apply resync_payload_rs|]. split; [intros _|intros _ _]; vm_compute; reflexivity. }
   eexists. split; [vm_compute; reflexivity|]. repeat split; vm_compute; reflexivity.
+Qed.
+
+(** * The protocol-level witness of the lagging delete (candidate genuine defect, Go map order dependent) *)
+(* /a/b = 1 is applied; the device becomes unreachable; "delete /a" and "/a/c = 3" are committed; the device comes
+   back (term 2, re-push of /a/b = 1); the two changes are applied, the recording loop of reconcileApply in the order
+   [o_order = 1].  All transactions are APPLIED, the configuration is SYNCHRONIZED in its term: the device holds /a/c
+   (= the committed configuration), the applied values say /a/b and /a/c.  After the connection is replaced once more
+   (term 3) the complete re-push RESURRECTS /a/b on the device: device <> committed configuration at quiescence. *)
+Definition l_lag_a : list Label :=
+  [LTarget 1 false; LConnUp 10 1; LChange [(1, x_ch "/a/b" "1")] true false] ++ x_rounds 20 (x_oracle COk) 10 1 [1]
+  ++ [LConnDown 10; LRec (CtlConn 10) 9 (x_oracle COk); LRec (CtlMaster 1) 9 (x_oracle COk);
+      LChange [(1, x_del "/a")] true false; LChange [(1, x_ch "/a/c" "3")] true false]
+  ++ x_rounds 30 (x_oracle COk) 10 1 [2; 3].
+Definition l_lag_b (o : oracle) : list Label :=
+  l_lag_a ++ [LConnUp 11 1] ++ x_rounds 3 (x_oracle COk) 11 1 [] ++ x_rounds 16 o 11 1 [2; 3].
+Definition l_lag_c (o : oracle) : list Label :=
+  l_lag_b o ++ [LConnDown 11; LRec (CtlConn 11) 9 (x_oracle COk); LRec (CtlMaster 1) 9 (x_oracle COk); LConnUp 12 1]
+  ++ x_rounds 4 (x_oracle COk) 12 1 [].
+Definition lag_summary (w : Wd) :=
+  (map (fun kv => (fst kv, t_state (snd kv))) (w_txs w),
+   map (fun kv => (c_applied (snd kv), c_committed (snd kv), c_state (snd kv), c_term (snd kv), c_aterm (snd kv),
+                   abs_app_i (aview overlay (snd kv)), abs_app_i (view overlay (snd kv)))) (w_cfgs w),
+   map (fun kv => abs_dev_i (d_state (snd kv))) (w_devs w)).
+Example lagging_delete_refuted :
+  (* order 0: everything agrees *)
+  lag_summary (x_run (l_lag_b (x_oracle COk))) =
+    ([(1, TApplied); (3, TApplied); (2, TApplied)],
+     [(3, 3, CSynchronized, 2, 2, [(B "/a/c", B "3")], [(B "/a/c", B "3")])], [[(B "/a/c", B "3")]]) /\
+  (* order 1: the applied values keep the deleted /a/b *)
+  lag_summary (x_run (l_lag_b (x_oracle1 COk))) =
+    ([(1, TApplied); (3, TApplied); (2, TApplied)],
+     [(3, 3, CSynchronized, 2, 2, [(B "/a/b", B "1"); (B "/a/c", B "3")], [(B "/a/c", B "3")])], [[(B "/a/c", B "3")]]) /\
+  ~ i_agrees (x_run (l_lag_b (x_oracle1 COk))) 1 /\
+  (* ... and the next re-push puts it back on the device *)
+  lag_summary (x_run (l_lag_c (x_oracle1 COk))) =
+    ([(1, TApplied); (3, TApplied); (2, TApplied)],
+     [(3, 3, CSynchronized, 3, 3, [(B "/a/b", B "1"); (B "/a/c", B "3")], [(B "/a/c", B "3")])],
+     [[(B "/a/b", B "1"); (B "/a/c", B "3")]]).
+Proof.
+  split; [vm_compute; reflexivity|]. split; [vm_compute; reflexivity|]. split; [|vm_compute; reflexivity].
+  intros (C & HC & Hag). vm_compute in HC. injection HC as <-. vm_compute in Hag. discriminate Hag.
 Qed.
